@@ -306,4 +306,22 @@ Section WithTie.
       eapply DocName_no; [exact Hin | | exact Hdot]. auto. }
     subst. rewrite app_nil_r in E. split; [reflexivity|]. now apply out_path_inj.
   Qed.
+  (* `cond restore` extracts into cond-out/<ARCHIVE_STAGING> and removes that directory.  It is not the
+     output directory of any task, nor a package directory on the way to one: its first character
+     is not an identifier character (D23: it used to be `archive-tmp`, a legal package name). *)
+  Definition staging_name_ok : bool :=
+    match cfg_ARCHIVE_STAGING with c :: _ => negb (ident_char c) | [] => false end.
+
+  Lemma staging_outside i v :
+    WfIdent i -> staging_name_ok = true -> nth_error (out_path i v) 1 <> Some cfg_ARCHIVE_STAGING.
+  Proof.
+    intros [Hp Hn] Hs E. unfold out_path in E. cbn [nth_error] in E. unfold staging_name_ok in Hs.
+    assert (Hhead : exists x t, cfg_ARCHIVE_STAGING = x :: t /\ ident_char x = true).
+    { destruct (ipath i) as [|seg r] eqn:Ei.
+      - cbn [app nth_error] in E. injection E as E'. unfold task_output_dir in E'.
+        destruct (DocName_head _ Hn) as (x & t & En & Hx). rewrite En in E'. cbn [app] in E'. exists x. eexists. split; [symmetry; exact E' | exact Hx].
+      - cbn [app nth_error] in E. injection E as E'. inversion Hp as [|? ? Hseg _]; subst.
+        destruct (DocName_head _ Hseg) as (x & t & En & Hx). exists x, t. split; [congruence | exact Hx]. }
+    destruct Hhead as (x & t & Ex & Hx). rewrite Ex in Hs. rewrite Hx in Hs. discriminate.
+  Qed.
 End WithTie.
